@@ -35,6 +35,9 @@ extern int simalloc_failed_in_step;	/* ... during the current step */
 extern uint64_t simalloc_nlib;		/* library-context allocations so far */
 extern uint64_t simalloc_nrefused_shrink, simalloc_nmoved;
 
+/* Engine-driven injection: fail the k-th library allocation from now on (one shot; -1 = off). */
+extern int simalloc_oneshot;
+
 /* Live-set queries. */
 size_t simalloc_lib_live(size_t * bytes);	/* blocks allocated in library context and still live */
 int simalloc_is_live(const void * p);
